@@ -26,6 +26,8 @@ pub enum Event {
     Lock { addr: usize, write: bool },
     Unlock { addr: usize, write: bool },
     Rmw { delta: i32, order: Ordering },
+    /// the tree's reference count is about to be read (without being modified)
+    Load { order: Ordering },
     /// the content of a child slot is about to be accessed (a pointer to it was requested)
     Access { addr: usize },
     Alloc { ptr: usize, data_lock: usize, slot_locks: usize, slots: usize, n_slots: usize },
@@ -174,7 +176,13 @@ impl AtomicU32 {
     }
 
     pub fn load(&self, order: Ordering) -> u32 {
+        point(Event::Load { order });
         self.0.load(order)
+    }
+
+    /// the current value, without reporting a step (for the accessor hooks only)
+    pub fn peek(&self) -> u32 {
+        self.0.load(Ordering::SeqCst)
     }
 }
 
